@@ -106,6 +106,38 @@ class _Pos:
         return "".join(self.parts)
 
 
+def alias_adjacency_stream(ctx, surfaces):
+    """every ASCII operator alias between every pair of neighbour classes (letter, digit, quote, bracket, blank): the
+    lexer receipts for the line must be exactly one normalization record per alias occurrence, at its position, on all
+    four observation points -- whatever the parser then makes of the tokens (only 'norm' receipts are compared here)"""
+    aliases = [("->", "\u2192"), ("+", "\u2295"), ("~", "\u29fa"), ("<->", "\u21cc"), ("|", "\u2228"), ("&", "\u2227")]
+    lefts = ["a", "A9", "x_y"]
+    rights = ["b", "3", "2x", "B_1", "42"]
+    n = 0
+    for al, uni in aliases:
+        for l in lefts:
+            for r in rights:
+                for sep in ("", " "):
+                    if al == "+" and sep == "" and l[-1].isdigit() and False:
+                        continue
+                    text = f"===D===\nK::{l}{sep}{al}{sep}{r}\n===END===\n"
+                    col = 4 + len(l) + len(sep)
+                    want = [("norm", al, uni, 2, col)]
+                    got = surfaces(text)
+                    n += 1
+                    ctx.count()
+                    ctx.nontrivial(("alias-adj", text))
+                    for name, recs in got.items():
+                        if isinstance(recs, str):
+                            continue            # the text is refused on this surface: nothing to report there
+                        norm = sorted(x for x in recs if x[0] == "norm")
+                        if norm != want:
+                            ctx.property_failure({"text": text, "surface": name, "expected": [list(x) for x in want], "reported": [list(x) for x in norm],
+                                                  "stream": "alias-adjacency"},
+                                                 f"{name}: the alias {al!r} next to {r!r} is not reported exactly once as a normalization receipt")
+    ctx.extra["alias_adjacency_cases"] = n
+
+
 def free_multiword_stream(ctx, surfaces):
     """Multi-word bare values built from identifiers, numbers and QUOTED words (also quoted words that look like
     annotations), and list items that follow a triple-quoted string spanning lines: the expected receipts (kind, text,
@@ -205,6 +237,7 @@ def run(ctx):
         if got != sorted(tuple(x) for x in c["expected"]):
             ctx.property_failure({"text": c["text"], "surface": c["surface"], "expected": c["expected"], "reported": got, "corpus": cf.name},
                                  f"{c['surface']}: receipts differ from the rewrites in the input (corpus {cf.name})")
+    alias_adjacency_stream(ctx, surfaces)
     free_multiword_stream(ctx, surfaces)
     cases = [c for c in doccases.gen_docs(ctx, ctx.scale(500, 8000), valid_fraction=1.0) if not c[1]]
     reps = ctx.scale(3, 10)
@@ -231,8 +264,11 @@ def run(ctx):
                     fids = []
                     if name == "octave_write(strict).corrections" and isinstance(got, list):
                         # two listed defects of the strict write path, attributed by the exact shape of the difference
-                        extra = [x for x in got if x[2] == "" and x[0] == "norm"]           # spec_violation mapped to W002
-                        core = [x for x in got if not (x[2] == "" and x[0] == "norm")]
+                        # spec_violation mapped to W002: replacement empty and the original is not a triple quote (an EMPTY
+                        # triple-quoted string legitimately yields ('norm', '"""', '') )
+                        bogus = lambda x: x[0] == "norm" and x[2] == "" and x[1] != '"""'   # noqa: E731
+                        extra = [x for x in got if bogus(x)]
+                        core = [x for x in got if not bogus(x)]
                         if core == [x for x in want if x[0] != "multi"]:
                             if extra:
                                 fids.append(PFX + "strict-write-spec-violation-as-w002")
